@@ -222,9 +222,28 @@ for _p in sorted(_glob.glob(os.path.join(os.path.dirname(os.path.abspath(__file_
     _m = _importlib.import_module(os.path.basename(_p)[:-3])
     OPS.update(getattr(_m, "OPS", {}))
 
+def _fresh_modules():
+    """re-execute the repository's modules: module-level state (caches, counters) starts empty, as in a new interpreter"""
+    global tad, rdfs, _orig_str
+    import importlib
+    for name in ("reverse_dfs", "tad", "conditionalrewards", "roberta_generator", "stochastic_game_from_roborta_board"):
+        if name in sys.modules:
+            importlib.reload(sys.modules[name])
+    tad = sys.modules["tad"]
+    rdfs = sys.modules["reverse_dfs"]
+    _orig_str = tad.Solver.solve_total_rewards
+
+    def _w(self):
+        _snap["pruned"] = [list(s.next_states) for s in self.state_list]
+        return _orig_str(self)
+    tad.Solver.solve_total_rewards = _w
+
+
 with open(fin) as f, open(fout, "w") as g:
     for line in f:
         c = json.loads(line)
+        if c.get("fresh_modules"):
+            _fresh_modules()
         signal.setitimer(signal.ITIMER_PROF, c.get("limit", limit))
         try:
             r = OPS[c["op"]](c)
